@@ -5,9 +5,8 @@ set -e
 cd "$(dirname "$0")/.."
 export GOFLAGS=-mod=mod GOPROXY=off GOSUMDB=off GOTOOLCHAIN=local CGO_ENABLED=0
 mkdir -p bin evidence replays lean/YaegiVerif/Generated
-(cd extract && go build -o ../bin/extract .)
-./bin/extract /repo lean/YaegiVerif/Generated
-(cd lean && lake build driver && lake build)
+(cd extract && for d in cmd/*/; do n=$(basename "$d"); N=$(echo "$n" | tr a-z A-Z); go build -o ../bin/extract-$N "./cmd/$n"; ../bin/extract-$N /repo ../lean/YaegiVerif/Generated; done)
+(cd lean && lake build && for m in Mains/C*.lean; do n=$(basename "$m" .lean); if ! grep -q unimplemented "YaegiVerif/Driver/$n.lean"; then lake build "driver-$n"; fi; done)
 cp /repo/go.sum harness/go.sum 2>/dev/null || true
 (cd harness && for d in cmd/*/; do n=$(basename "$d"); go build -tags verif -o ../bin/harness-$(echo "$n" | tr a-z A-Z) "./cmd/$n"; done)
 echo setup done
